@@ -317,7 +317,10 @@ def judge(kind, env, sched):
     for n, i in enumerate(ok_attempts):
         nxt = ok_attempts[n + 1] if n + 1 < len(ok_attempts) else len(log)
         seg = log[i + 1 : nxt]
-        if not any(e[0] == "made" for e in seg) and any(e[0] == "env" and e[1] in ("stop", "disconnect") for e in seg):
+        called = [j for j, e in enumerate(log[:i]) if e[0] == "env" and e[1] in ("stop", "disconnect")]
+        returned = [j for j, e in enumerate(log[:i]) if e[0] == "stop-returned"]
+        during_stop = bool(called) and log[called[-1]][1] == "stop" and (not returned or returned[-1] < called[-1])
+        if not any(e[0] == "made" for e in seg) and (any(e[0] == "env" and e[1] in ("stop", "disconnect") for e in seg) or during_stop):
             in_flight += 1
     if in_flight:
         info["connect_in_flight_at_stop_or_disconnect"] += 1
@@ -340,7 +343,14 @@ def judge(kind, env, sched):
             if e[0] in ("made", "lost"):
                 out.append(("callback-after-stop", e[0], f"a connection callback fired after stop() returned: {short(log, 400)}"))
             if e[0] == "attempt":
-                out.append(("connect-after-stop", "", f"a connect attempt was made after stop() returned: {short(log, 400)}"))
+                late = [x for x in after if x[0] == "attempt"]
+                quiet = not any(x[0] in ("made", "lost", "write") for x in after)
+                if len(late) == 1 and abs(e[1] - stop_t) < 1e-9 and quiet:
+                    # one dial at the very instant stop() returned and nothing after it: the connect thread had already
+                    # evaluated 'while transport.protocol' when stop() cleared it (known finding, see known_findings.json)
+                    out.append(("connect-after-stop", "decided-before-stop", f"one connect attempt at the instant stop() returned (the connect thread had passed its loop condition before stop() ran): {short(log, 400)}"))
+                else:
+                    out.append(("connect-after-stop", "", f"a connect attempt was made after stop() returned: {short(log, 400)}"))
         if settled and settled[2]:
             info["library_threads_alive_5R_after_stop"] += 1
     # supervision: after an unrequested loss, attempts at t0, t0+R, ... until one succeeds
